@@ -280,8 +280,10 @@ func TestC09_Gen(t *testing.T) {
 				toks = append(toks, alphabet[gen.Uniform(rt, len(alphabet), "tok")])
 			}
 			c.Text = strings.Join(toks, " ")
-		case mode < 9: // structured trouble makers
+		case mode < 8: // structured trouble makers
 			c.Text = structuredTrouble[gen.Uniform(rt, len(structuredTrouble), "trouble")]
+		case mode < 9: // arbitrary (cyclic) fragment graphs through fields, lists and abstract fields
+			c.Text = cyclicFragments(rt)
 		default: // raw bytes
 			c.Text = string(rapid.SliceOfN(rapid.Byte(), 0, 40).Draw(rt, "bytes"))
 		}
@@ -289,12 +291,31 @@ func TestC09_Gen(t *testing.T) {
 			c.OpName = []string{"Q", "A", "", "on", "\x00"}[gen.Uniform(rt, 5, "op")]
 		}
 		c.Vars = c09VarsPool[gen.Uniform(rt, len(c09VarsPool), "vars")]
+		markCurrent("C09", "gen", c) // an unrecoverable crash (stack overflow) kills the process: this file names the input
 		msg, class := c09Oracle(c)
 		c09Record(c, class)
 		if msg != "" {
 			violation(rt, "C09", "gen", c, "%s\n  input: %q op=%q vars=%s", msg, c.Text, c.OpName, c.Vars)
 		}
 	})
+}
+
+// cyclicFragments draws 2-4 fragments on O whose bodies spread each other directly and
+// through object, list, interface and union fields: any digraph, cycles included.
+func cyclicFragments(rt *rapid.T) string {
+	k := gen.Intn(rt, 2, 4, "nFrags")
+	var sb strings.Builder
+	sb.WriteString([]string{"{ o { ...F0 } }", "{ l { ...F0 } o { ...F1 } }", "mutation { o { ...F0 } }", "{ i { ...F0 } }"}[gen.Uniform(rt, 4, "opShape")])
+	wrappers := []string{"%s", "o { %s }", "l { %s }", "o { o { %s } }", "i { %s }", "u { ... on O { %s } }", "... on O { %s }", "a %s"}
+	for i := 0; i < k; i++ {
+		fmt.Fprintf(&sb, " fragment F%d on O { a ", i)
+		for j, n := 0, gen.Intn(rt, 1, 3, "nSpreads"); j < n; j++ {
+			target := fmt.Sprintf("...F%d", gen.Uniform(rt, k, "target"))
+			fmt.Fprintf(&sb, wrappers[gen.Uniform(rt, len(wrappers), "wrapper")]+" ", target)
+		}
+		sb.WriteString("}")
+	}
+	return sb.String()
 }
 
 func deepNest(n int) string {
@@ -306,6 +327,12 @@ var structuredTrouble = []string{
 	`{...F} fragment F on Q {...F}`,
 	`{...F} fragment F on Q {...G} fragment G on Q {...H} fragment H on Q {...F a}`,
 	`{...F} fragment F on Q {o{...G}} fragment G on O {o{...G} l{...G}}`,
+	`{ o { ...A } } fragment A on O { o { ...B } } fragment B on O { o { ...A } }`,
+	`{ o { ...A } } fragment A on O { o { ...B } } fragment B on O { l { ...C } } fragment C on O { o { ...A a } }`,
+	`{ self { ...A } } fragment A on Q { self { ...B } o { ...C } } fragment B on Q { self { ... on Q { ...A } } } fragment C on O { o { ...C } }`,
+	`{ i { ...A } } fragment A on I { i { ...B } } fragment B on I { i { ...A } ... on O { o { ...C } } } fragment C on O { i { ...A } }`,
+	`mutation { o { ...A } } fragment A on O { o { ...B } } fragment B on O { o { ...A } }`,
+	`subscription { ev { ...A } } fragment A on O { o { ...B } } fragment B on O { o { ...A } }`,
 	`query A{a} query A{a}`, `query A{a} {a}`, `{a} {a}`, `fragment F on Q{a}`, `query Q{...Nope}`, `{nope}`, `{o}`, `{a{b}}`, `{o{nope}}`,
 	`query($a: ){a}`, `query($a: ]){a}`, `query($a:[Int}){a}`, `query($v:Nope){a}`, `query($v:O){a}`, `query($v:Int=1,$v:Int){int}`, `query($v:Int!=1){int}`,
 	`{n(x:{b:1})}`, `{n(x:{nope:1})}`, `{n(x:{b:"s",n:{b:"t",n:{b:"u"}}})}`, `{n(y:[1,null])}`, `{n(z:NOPE)}`, `{n(w:1)}`, `{req}`, `{req(r:null)}`, `{req(r:$undefined)}`,
@@ -334,6 +361,7 @@ func TestC09_Corpus(t *testing.T) {
 	for _, s := range texts {
 		for _, v := range []string{"", `{"v":1}`, `{"v":{"b":"x"}}`} {
 			c := &RawCase{Text: s, Vars: v}
+			markCurrent("C09", "corpus", c)
 			msg, class := c09Oracle(c)
 			c09Record(c, class)
 			if msg != "" {
